@@ -1,8 +1,298 @@
-/- Driver for C18 (stub). -/
+/-
+  Driver for C18. Line = "input<TAB>implObs", see harness/props/c18 (world.go: observation).
+
+  input := (K KV0 (ACTION…))                      the script; only KV0 matters here
+  obs   := (EV…)  the master's trace of the REAL core, projected, plus the harness' markers:
+    (kv F|-) (start L) (sub L F|- FO) (subd F) (recon N HTTP) (launch E T) (upd T STATE recon|-|other DELIVERED)
+    (kill T HTTP) (drop) (killcore) (term) (exited) (destroy E) (destroyed E OK) (teardown)
+    (envs (E STATE)…) (own PHASE (T LOCKED STATUS)…) (quiet L (T LIFE STATE)…)
+  tasks tN, barrier tasks bN (reconciliation updates about tasks nobody knows), environments eN, framework ids fN.
+
+  MONITOR (modelObs = ACCEPT | REJECT:<why>): the trace is replayed as a history of Model/Reconcile.lean with
+  the configuration the code has NOW (`Spec.C18.codeCfg`, from the regenerated facts): what the master and
+  the harness did become steps (coreStart, coreKill, coreTerm, subscribe, drop, launch, status, reconUpdate,
+  release), every event put on the stream is read and handled at once, and what the model's core then does
+  (SUBSCRIBE with/without id, RECONCILE, KILL per task) must be what the real core was seen doing between two
+  quiet points, as multisets; the roster must be what GetTasks said before every disturbance and after every
+  restart; the master's reconciliation answers must be the ones the model's master gives.
+
+  SPEC (specOnImpl): `Spec.C18.all` on a log rebuilt from the observation ALONE (no model state): SUBSCRIBEs
+  and mesos_fid values as seen, every KILL classified by what preceded it in the trace (reconciliation update /
+  ordinary update / a teardown the harness asked for or the core's own shutdown) and by what GetTasks said
+  the core owned at the last snapshot, quiet points with the master's live rows of earlier lives.
+  hyp = reconnect_kills_owned when only `ownedSpared` fails, the code has no roster test, and the replayed
+  history violates `noReconnWhileOwning` (the excluded hypothesis of C18_owned_spared_partial).
+-/
 import ControlModel.Basic
+import ControlModel.Spec.C18
 
 namespace Driver.C18
+open Reconcile Spec.C18
 
-def processLine (_line : String) : String := "UNIMPLEMENTED\t0\t-"
+def barrierBase : Nat := 1000000
+
+inductive TEv where
+  | kv (f : Option Nat)
+  | start (l : Nat)
+  | sub (l : Nat) (f : Option Nat) (fo : Bool)
+  | subd (f : Nat)
+  | recon (n http : Nat)
+  | launch (e t : Nat)
+  | upd (t : Nat) (s : MState) (r : Reason) (d : Bool)
+  | kill (t http : Nat)
+  | drop | killcore | term | exited | teardown
+  | destroy (e : Nat)
+  | destroyed (e : Nat)
+  | envs (rows : List Nat)
+  | own (phase : String) (rows : List (Nat × Bool))
+  | quiet (l : Nat) (rows : List (Nat × Nat × MState))
+
+def pref (p : Char) (base : Nat) : SExp → Option Nat
+  | .atom s =>
+    match s.toList with
+    | c :: rest => if c == p then (String.ofList rest).toNat?.map (· + base) else none
+    | [] => none
+  | _ => none
+
+def taskRef (x : SExp) : Option Nat := (pref 't' 0 x).orElse (fun _ => pref 'b' barrierBase x)
+def envRef : SExp → Option Nat := pref 'e' 0
+def fidRef : SExp → Option (Option Nat)
+  | .atom "-" => some none
+  | x => (pref 'f' 0 x).map some
+
+def stateOfShort (s : String) : Option MState := stateOfName ("TASK_" ++ s)
+
+def parseEv : SExp → Option TEv
+  | .list [.atom "kv", f] => do pure (.kv (← fidRef f))
+  | .list [.atom "start", l] => do pure (.start (← l.nat?))
+  | .list [.atom "sub", l, f, fo] => do pure (.sub (← l.nat?) (← fidRef f) (← fo.bool?))
+  | .list [.atom "subd", f] => do pure (.subd (← pref 'f' 0 f))
+  | .list [.atom "recon", n, h] => do pure (.recon (← n.nat?) (← h.nat?))
+  | .list [.atom "launch", e, t] => do pure (.launch (← envRef e) (← taskRef t))
+  | .list [.atom "upd", t, .atom s, .atom r, d] => do
+    pure (.upd (← taskRef t) (← stateOfShort s) (if r == "recon" then .recon else .none) (← d.bool?))
+  | .list [.atom "kill", t, h] => do pure (.kill (← taskRef t) (← h.nat?))
+  | .list [.atom "drop"] => some .drop
+  | .list [.atom "killcore"] => some .killcore
+  | .list [.atom "term"] => some .term
+  | .list [.atom "exited"] => some .exited
+  | .list [.atom "teardown"] => some .teardown
+  | .list [.atom "destroy", e] => do pure (.destroy (← envRef e))
+  | .list [.atom "destroyed", e, _] => do pure (.destroyed (← envRef e))
+  | .list (.atom "envs" :: rows) => do
+    pure (.envs (← rows.mapM? fun | .list [e, _] => envRef e | _ => none))
+  | .list (.atom "own" :: .atom phase :: rows) => do
+    pure (.own phase (← rows.mapM? fun | .list [t, l, _] => do pure ((← taskRef t), (← l.bool?)) | _ => none))
+  | .list (.atom "quiet" :: l :: rows) => do
+    pure (.quiet (← l.nat?) (← rows.mapM? fun
+      | .list [t, life, .atom s] => do pure ((← taskRef t), (← life.nat?), (← stateOfShort s))
+      | _ => none))
+  | _ => none
+
+/-! ## the monitor -/
+
+def W : World := World.complete
+
+structure Mon where
+  s : St
+  hist : List Step := []          -- newest first
+  mark : Nat := 0                 -- length of `s.log` at the last synchronisation
+  seen : List String := []        -- calls of the real core since then
+  expAns : List Upd := []         -- reconciliation answers the model's master gave, not yet seen in the trace
+  terminating : Bool := false
+  err : Option String := none
+
+def Mon.fail (m : Mon) (why : String) : Mon := if m.err.isSome then m else { m with err := some why }
+
+def Mon.step (m : Mon) (x : Step) : Mon := { m with s := Reconcile.step codeCfg W m.s x, hist := x :: m.hist }
+
+/-- read and handle everything that is on the stream behind an already-read SUBSCRIBED -/
+def Mon.drain (m : Mon) : Nat → Mon
+  | 0 => m
+  | fuel + 1 =>
+    if m.s.hello.isSome || !m.s.alive then m
+    else if !m.s.inbox.isEmpty then (m.step .handle).drain fuel
+    else if !m.s.queue.isEmpty then (m.step .read).drain fuel
+    else m
+
+def Mon.settle (m : Mon) : Mon := m.drain (2 * (m.s.queue.length + m.s.inbox.length) + 2)
+
+def fidStr : Option Nat → String
+  | none => "-"
+  | some f => s!"f{f}"
+
+/-- what the model's core did since the mark, as comparable strings (term kills are compared leniently) -/
+def predicted (m : Mon) : List String :=
+  ((m.s.log.take (m.s.log.length - m.mark)).filterMap fun
+    | .subscribe l c => some s!"sub {l} {fidStr c}"
+    | .reconcile l => some s!"recon {l}"
+    | .kill _ t (.update _) _ => some s!"kill {t}"
+    | .kill _ t .release _ => some s!"kill {t}"
+    | _ => none)
+
+def sortS (xs : List String) : List String := (xs.toArray.qsort (· < ·)).toList
+
+def removeOne (x : String) : List String → Option (List String)
+  | [] => none
+  | y :: ys => if x == y then some ys else (removeOne x ys).map (y :: ·)
+
+def subMultiset : List String → List String → Bool
+  | [], _ => true
+  | x :: xs, ys => match removeOne x ys with
+    | some ys' => subMultiset xs ys'
+    | none => false
+
+/-- strict: the real core made exactly the calls the model's core made; else a prefix-closed subset (the core was killed) -/
+def Mon.sync (m : Mon) (strict : Bool) (wher : String) : Mon :=
+  let m := m.settle
+  let p := sortS (predicted m)
+  let o := sortS m.seen
+  let ok := if strict then p == o else subMultiset o p
+  let m := if ok then m else m.fail s!"{wher}: the core made the calls {o}, the model's core {p}"
+  let m := if strict && !m.expAns.isEmpty then m.fail s!"{wher}: the model's master answered the reconciliation with {m.expAns.map (·.1)} more" else m
+  { m with mark := m.s.log.length, seen := [], expAns := if strict then [] else m.expAns }
+
+def rosterRows (s : St) : List String :=
+  sortS (s.roster.map fun r => s!"{r.id}:{r.locked}")
+
+def Mon.onEv (m : Mon) (kv0 : Option Nat) : TEv → Mon
+  | .kv f =>
+    if m.s.life == 0 then (if f == kv0 then m else m.fail "initial mesos_fid differs from the input")
+    else if m.s.kv == f then m else m.fail s!"mesos_fid holds {fidStr f}, the model {fidStr m.s.kv}"
+  | .start l =>
+    let m := m.step .coreStart
+    if m.s.life == l && m.s.alive then { m with terminating := false } else m.fail s!"life {l} started, the model is in life {m.s.life}"
+  | .sub l f fo =>
+    if m.s.stream.isSome then m.fail "SUBSCRIBE while the model's stream is up" else
+    let m := m.step .subscribe
+    let m := if fo == codeCfg.failover then m else m.fail "failover_timeout of the SUBSCRIBE differs from the model's configuration"
+    { m with seen := s!"sub {l} {fidStr f}" :: m.seen }
+  | .subd f => if m.s.hello == some f then m else m.fail s!"SUBSCRIBED f{f}, the model's master said {fidStr m.s.hello}"
+  | .recon n _ =>
+    if n != 0 then m.fail "explicit reconciliation" else
+    if m.s.hello.isNone then m.fail "RECONCILE without a SUBSCRIBED to handle" else
+    let before := m.s.queue.length
+    let m := m.step .read
+    let ans := (m.s.queue.drop before).filter (fun u => u.2.2 == .recon)
+    ({ m with seen := s!"recon {m.s.life}" :: m.seen, expAns := m.expAns ++ ans }).settle
+  | .launch e t =>
+    let m := m.settle
+    let m' := m.step (.launch e t)
+    if m'.s.tasks.length == m.s.tasks.length + 1 then m' else m'.fail s!"task {t} launched while the model's core could not launch"
+  | .upd t st r d =>
+    if r == .recon then
+      if !d then m else
+      if t ≥ barrierBase then (m.step (.reconUpdate t st)).settle
+      else
+        -- the SUBSCRIBED may not have been matched with its RECONCILE yet: then the answer is not predicted yet
+        match removeOneUpd (t, st, Reason.recon) m.expAns with
+        | some rest => ({ m with expAns := rest }).settle
+        | none => m.fail s!"reconciliation answer ({t} {repr st}) that the model's master did not give"
+    else (m.step (.status t st)).settle
+  | .kill t _ =>
+    if m.terminating then
+      if (m.s.tasks.any (·.id == t)) then m else m.fail s!"KILL of unknown task {t} during shutdown"
+    else { m with seen := s!"kill {t}" :: m.seen }
+  | .drop => (m.sync false "stream dropped").step .drop
+  | .killcore => (m.sync false "core killed").step .coreKill
+  | .term => { (m.sync true "SIGTERM") with terminating := true }
+  | .exited =>
+    let m := m.settle.step .coreTerm
+    { m with mark := m.s.log.length, seen := [], expAns := [], terminating := false }
+  | .teardown => m.fail "TEARDOWN call"
+  | .destroy e => if m.terminating then m else m.settle.step (.release e)
+  | .destroyed _ => m
+  | .envs rows =>
+    if m.terminating || !m.s.alive then m else
+    -- environments the core has given up by itself (failed deployment): their tasks are released
+    let gone := (m.s.roster.map (·.env)).eraseDups.filter (fun e => !rows.contains e)
+    gone.foldl (fun m e => m.settle.step (.release e)) m
+  | .own phase rows =>
+    if phase == "post" then m else
+    let m := m.settle
+    let o := sortS (rows.map fun (t, l) => s!"{t}:{l}")
+    if o == rosterRows m.s then m else m.fail s!"GetTasks ({phase}) says {o}, the model's roster is {rosterRows m.s}"
+  | .quiet l rows =>
+    let m := m.sync true s!"quiet point of life {l}"
+    let m := if m.s.hello.isSome then m.fail "quiet point with SUBSCRIBED unread (no RECONCILE seen)" else m
+    let m := m.step .snapshot
+    let want := sortS ((rows.filter fun (_, life, st) => life < l && unguardedCfg.killable st).map fun (t, _, _) => toString t)
+    let m := match m.s.log with
+      | .snap l' os :: _ =>
+        if l' == l && sortS (os.map toString) == want then m
+        else m.fail s!"quiet point: the master holds orphans {want}, the model {os}"
+      | _ => m.fail "quiet point: the model is not quiescent"
+    { m with mark := m.s.log.length }
+where
+  removeOneUpd (u : Upd) : List Upd → Option (List Upd)
+    | [] => none
+    | y :: ys => if u == y then some ys else (removeOneUpd u ys).map (y :: ·)
+
+/-! ## the log of the real core, from the observation alone -/
+
+structure Obs where
+  log : List Out := []              -- newest first
+  life : Nat := 0
+  lastKv : Option Nat := none
+  own : List (Nat × Bool) := []
+  destroying : List Nat := []
+  terminating : Bool := false
+  lastReason : List (Nat × Reason) := []
+  envOf : List (Nat × Nat) := []
+
+def Obs.onEv (o : Obs) : TEv → Obs
+  | .kv f =>
+    match f with
+    | some g => if o.lastKv == some g then o else { o with log := .persist o.life g :: o.log, lastKv := some g }
+    | none => o
+  | .start l => { o with life := l, own := [], destroying := [], terminating := false, lastReason := [] }
+  | .sub l f _ => { o with log := .subscribe l f :: o.log }
+  | .recon 0 _ => { o with log := .reconcile o.life :: o.log }
+  | .launch e t => { o with envOf := (t, e) :: o.envOf }
+  | .upd t _ r d => if d then { o with lastReason := Assoc.set o.lastReason t r } else o
+  | .own _ rows => { o with own := rows }
+  | .destroy e => { o with destroying := e :: o.destroying }
+  | .envs rows =>
+    -- an environment the core no longer lists is being (or has been) cleaned up by the core itself
+    let gone := ((o.envOf.map (·.2)).eraseDups.filter fun e => !rows.contains e)
+    { o with destroying := (gone ++ o.destroying).eraseDups }
+  | .term => { o with terminating := true }
+  | .kill t _ =>
+    let env := Assoc.get o.envOf t
+    let released := match env with | some e => o.destroying.contains e | none => false
+    let why : Why := if o.terminating then .term else
+      match Assoc.get o.lastReason t with
+      | some .recon => .update .recon
+      | _ => if released then .release else .update .none
+    let owned := !o.terminating && !released && o.own.contains (t, true)
+    { o with log := .kill o.life t why owned :: o.log }
+  | .quiet l rows =>
+    { o with log := .snap l ((rows.filter fun (_, life, st) => life < l && unguardedCfg.killable st).map (·.1)) :: o.log }
+  | _ => o
+
+def parseKv0 : SExp → Option (Option Nat)
+  | .list [_, b, _] => do pure (if (← b.bool?) then some 0 else none)
+  | _ => none
+
+def processLine (line : String) : String :=
+  match SExp.fields line with
+  | [inp, impl] =>
+    match (SExp.parse inp).bind parseKv0, SExp.parse impl with
+    | some kv0, some (.list evs) =>
+      match evs.mapM? parseEv with
+      | none => "REJECT:unparsable-observation\t0\t-"
+      | some tr =>
+        let m := tr.foldl (fun m e => m.onEv kv0 e) ({ s := init kv0 } : Mon)
+        let m := m.sync true "end of the trace"
+        let o := tr.foldl Obs.onEv {}
+        let spec := Spec.C18.all o.log
+        let model := match m.err with | none => "ACCEPT" | some w => "REJECT:" ++ (w.replace "\t" " ").replace "\n" " "
+        let onlyOwned := sameIdentity o.log && persistedOnce o.log && orphansKilled o.log && updatesNeverKill o.log && !ownedSpared o.log
+        let hyp :=
+          if !spec && onlyOwned && !codeCfg.rosterGuard && !noReconnWhileOwning codeCfg W m.hist.reverse (init kv0)
+          then "reconnect_kills_owned" else "-"
+        s!"{model}\t{if spec then 1 else 0}\t{hyp}"
+    | _, _ => "BADINPUT\t0\t-"
+  | _ => "BADLINE\t0\t-"
 
 end Driver.C18
